@@ -138,6 +138,157 @@ func guardedUses(evs []event, field, lock, unlock string) bool {
 	return true
 }
 
+// lockWalk checks, following the statement structure, that every use of `field` happens with
+// the lock held. A branch that ends in a return does not carry its lock state to the code after
+// it; branches that fall through must agree. Deferred unlocks hold to the end of the function.
+type lockWalk struct {
+	field, mu string // e.g. "l.writer", "l.writerMu"
+	ok        bool
+}
+
+func (lw *lockWalk) usesField(n ast.Node) bool {
+	found := false
+	ast.Inspect(n, func(x ast.Node) bool {
+		if _, isFn := x.(*ast.FuncLit); isFn {
+			return false
+		}
+		if se, ok := x.(*ast.SelectorExpr); ok {
+			s := exprStr(se)
+			if s == lw.field || strings.HasPrefix(s, lw.field+".") {
+				found = true
+			}
+		}
+		return true
+	})
+	return found
+}
+
+func (lw *lockWalk) lockCall(st ast.Stmt) string {
+	es, ok := st.(*ast.ExprStmt)
+	if !ok {
+		return ""
+	}
+	c, ok := es.X.(*ast.CallExpr)
+	if !ok {
+		return ""
+	}
+	switch exprStr(c.Fun) {
+	case lw.mu + ".Lock":
+		return "lock"
+	case lw.mu + ".Unlock":
+		return "unlock"
+	}
+	return ""
+}
+
+// block returns the lock state after the statements and whether they always return.
+func (lw *lockWalk) block(stmts []ast.Stmt, held bool) (bool, bool) {
+	for _, st := range stmts {
+		switch lw.lockCall(st) {
+		case "lock":
+			held = true
+			continue
+		case "unlock":
+			held = false
+			continue
+		}
+		switch x := st.(type) {
+		case *ast.DeferStmt:
+			continue
+		case *ast.ReturnStmt:
+			if lw.usesField(x) && !held {
+				lw.ok = false
+			}
+			return held, true
+		case *ast.BlockStmt:
+			h, term := lw.block(x.List, held)
+			if term {
+				return h, true
+			}
+			held = h
+		case *ast.IfStmt:
+			if x.Init != nil && lw.usesField(x.Init) && !held {
+				lw.ok = false
+			}
+			if lw.usesField(x.Cond) && !held {
+				lw.ok = false
+			}
+			hb, tb := lw.block(x.Body.List, held)
+			he, te := held, false
+			if x.Else != nil {
+				he, te = lw.block([]ast.Stmt{x.Else}, held)
+			}
+			switch {
+			case tb && te:
+				return held, true
+			case tb:
+				held = he
+			case te:
+				held = hb
+			default:
+				if hb != he {
+					lw.ok = false // the branches disagree about the lock
+				}
+				held = hb && he
+			}
+		case *ast.ForStmt:
+			if (x.Init != nil && lw.usesField(x.Init) || x.Cond != nil && lw.usesField(x.Cond) || x.Post != nil && lw.usesField(x.Post)) && !held {
+				lw.ok = false
+			}
+			h, _ := lw.block(x.Body.List, held)
+			if h != held {
+				lw.ok = false
+			}
+		case *ast.RangeStmt:
+			if lw.usesField(x.X) && !held {
+				lw.ok = false
+			}
+			h, _ := lw.block(x.Body.List, held)
+			if h != held {
+				lw.ok = false
+			}
+		case *ast.SwitchStmt:
+			if (x.Init != nil && lw.usesField(x.Init) || x.Tag != nil && lw.usesField(x.Tag)) && !held {
+				lw.ok = false
+			}
+			out, all := held, true
+			first := true
+			for _, cc := range x.Body.List {
+				cl := cc.(*ast.CaseClause)
+				for _, e := range cl.List {
+					if lw.usesField(e) && !held {
+						lw.ok = false
+					}
+				}
+				h, term := lw.block(cl.Body, held)
+				if !term {
+					all = false
+					if first {
+						out, first = h, false
+					} else if h != out {
+						lw.ok = false
+					}
+				}
+			}
+			_ = all
+			if !first && out != held {
+				held = out
+			}
+		default:
+			if lw.usesField(st) && !held {
+				lw.ok = false
+			}
+		}
+	}
+	return held, false
+}
+
+func lockGuards(fd *ast.FuncDecl, field, mu string) bool {
+	lw := &lockWalk{field: field, mu: mu, ok: true}
+	lw.block(fd.Body.List, false)
+	return lw.ok
+}
+
 func genFacts(w *bufio.Writer, repo string) error {
 	logGo, err := parseGo(filepath.Join(repo, "log.go"))
 	if err != nil {
@@ -245,16 +396,7 @@ func genFacts(w *bufio.Writer, repo string) error {
 		if err := need(fd, name); err != nil {
 			return err
 		}
-		evs := events(fd.Body)
-		// `defer l.writerMu.Unlock()` keeps the lock to the end: only explicit calls release
-		var filtered []event
-		for _, e := range evs {
-			if strings.HasPrefix(e.what, "use:l.writerMu") {
-				continue
-			}
-			filtered = append(filtered, e)
-		}
-		if !guardedUses(filtered, "l.writer", "l.writerMu.Lock", "l.writerMu.Unlock") {
+		if !lockGuards(fd, "l.writer", "l.writerMu") {
 			wg = false
 		}
 	}
@@ -289,6 +431,10 @@ func genFacts(w *bufio.Writer, repo string) error {
 		}
 	}
 	rwEv := events(segGo.fn("Segment", "Rewrite").Body)
+	if up := segGo.fn("Segment", "RewriteUpTo"); up != nil && hasEv(rwEv, "call:src.RewriteUpTo") {
+		// Rewrite delegates to the bounded variant
+		rwEv = append(rwEv, events(up.Body)...)
+	}
 	if !(hasEv(rwEv, "call:dstLog.SyncAndClose") && hasEv(rwEv, "call:index.Write")) {
 		sbr = false
 	}
